@@ -27,7 +27,9 @@ uint32_t ir_splinetable_ndim(char*); uint32_t ir_splinetable_order(char*, uint32
 vr64 ir_splinetable_knot(char*, uint32_t, uint64_t); vr64 ir_splinetable_lower_extent(char*, uint32_t); vr64 ir_splinetable_upper_extent(char*, uint32_t); vr64 ir_splinetable_period(char*, uint32_t);
 uint64_t ir_splinetable_ncoeffs(char*, uint32_t); uint64_t ir_splinetable_total_ncoeffs(char*); uint64_t ir_splinetable_stride(char*, uint32_t); char* ir_splinetable_coefficients(char*);
 uint32_t ir_tablesearchcenters(char*, char*, char*); vr64 ir_ndsplineeval(char*, char*, char*, uint32_t); void ir_ndsplineeval_gradient(char*, char*, char*, char*);
-uint32_t ir_splinetable_convolve(char*, uint32_t, char*, uint64_t); uint32_t ir_splinetable_permute(char*, char*);
+uint32_t ir_splinetable_convolve(char*, uint32_t, char*, uint64_t);
+uint32_t ir_splinetable_glamfit(char*, char*, char*, char*, char*, char*, char*, char*, char*, uint32_t, uint8_t); uint32_t ir_splinetable_grideval(char*, char*, char*, char*); void ir_ndsparse_destroy(char*);
+void ir_w_fit(char* t, char* data, char* w, uint64_t nw, char* coords, char* ncoords, uint64_t ncv, char* orders, uint64_t no, char* knots, char* nknots, uint64_t nkv, char* sm, uint64_t nsm, char* po, uint64_t npo, uint32_t monodim); char* ir_w_grideval(char* t, char* coords, char* ncoords, uint64_t ncv); void ir_w_ndsparse_delete(char* nd); uint32_t ir_splinetable_permute(char*, char*);
 // twins
 char* ir_t_write_fits_mem(char* t, char* size); uint32_t ir_t_read_fits_mem(char* t, char* buf, uint64_t n); void ir_t_write_fits(char* t, char* path); void ir_t_construct_path(char* t, char* path);
 void ir_t_default_construct(char* t); void ir_t_destroy(char* t); uint32_t ir_t_equal(char* a, char* b); char* ir_t_get_aux_value(char* t, char* key);
@@ -39,6 +41,13 @@ uint64_t tab_cur, tab_peak, tab_errors; int tab_live;
 static struct { void* p; uint64_t n; } tab_blk[512];
 void* ir_vm_tab_alloc(uint64_t n){ void* p = malloc(n ? n : 1); for (int i = 0; i < 512; i++) if (!tab_blk[i].p) { tab_blk[i].p = p; tab_blk[i].n = n; break; } tab_live++; tab_cur += n; if (tab_cur > tab_peak) tab_peak = tab_cur; return p; }
 void ir_vm_tab_free(char* p, uint64_t n){ if (!p) return; for (int i = 0; i < 512; i++) if (tab_blk[i].p == p) { if (tab_blk[i].n != n) tab_errors++; tab_cur -= tab_blk[i].n; tab_blk[i].p = 0; tab_live--; free(p); return; } tab_errors++; }
+// CHOLMOD model hooks (fit / grideval through the C interface): the solution of the linear system is a vector of fresh variables
+#include <cholmod.h>
+extern int cm_live_objects;
+void vm_solve(uint64_t n, const vr64* A, const vr64* b, vr64* x){ (void)A; (void)b; for (uint64_t j = 0; j < n; j++) { char nm[24]; snprintf(nm, 24, "s%llu", (unsigned long long)j); x[j] = vs_var_nonzero(nm); } }   /* non-zero: grideval lists exactly the non-zero coefficients */
+char* ir_nnls_normal_block3(char* AtA_, char* Atb_, uint32_t verbose, char* c){ (void)Atb_; (void)verbose; (void)c;
+  cholmod_sparse* A = (cholmod_sparse*)AtA_; uint64_t n = A->nrow; cholmod_dense* X = (cholmod_dense*)calloc(1, sizeof *X); X->nrow = n; X->ncol = 1; X->d = n; X->nzmax = n; X->x = calloc(n ? n : 1, 8); X->xtype = CHOLMOD_REAL; cm_live_objects++;
+  for (uint64_t j = 0; j < n; j++) { char nm[24]; snprintf(nm, 24, "n%llu", (unsigned long long)j); ((vr64*)X->x)[j] = vs_var_ge0(nm); } return (char*)X; }
 uint64_t vm_format_double(vr64 v, char* buf){ (void)v; buf[0] = '1'; return 1; }
 int vm_parse_double(const char* t, uint64_t n, vr64* out){ (void)t; (void)n; *out = 0; return 0; }
 }
@@ -59,7 +68,7 @@ static void build(ps_table& t, const Shape& s, const char* tag, bool concrete_kn
 }
 static uint64_t ncoef(const ps_table& t){ uint64_t n = 1; for (unsigned d = 0; d < t.ndim; d++) n *= t.naxes[d]; return n; }
 static void same(const std::string& id, const ps_table& a, const ps_table& b){
-  eqi(id + " ndim", b.ndim, a.ndim); if (a.ndim != b.ndim) return;
+  eqi(id + " ndim", b.ndim, a.ndim); if (a.ndim != b.ndim || a.ndim == 0) return;
   for (unsigned d = 0; d < a.ndim; d++) { eqi(id + " order", b.order[d], a.order[d]); eqi(id + " nknots", b.nknots[d], a.nknots[d]); eqi(id + " naxes", b.naxes[d], a.naxes[d]); eqi(id + " strides", b.strides[d], a.strides[d]);
     if (a.nknots[d] == b.nknots[d]) for (uint64_t i = 0; i < a.nknots[d]; i++) eqh(id + " knot", b.knots[d][i], a.knots[d][i]);
     eqh(id + " lower extent", b.extents[d][0], a.extents[d][0]); eqh(id + " upper extent", b.extents[d][1], a.extents[d][1]); }
